@@ -83,7 +83,10 @@ def run(tier, seed):
     for c, r in zip(cases, results):
         rep.add("evaluations", 1)
         problems = []
-        ok1 = judge_stmt(c["s1"], c["t1"], r["r1"], problems)
+        if c.get("expr1") and c["t1"]["k"] != "err" and r["r1"]["outcome"] == "ok":
+            ok1 = True       # a bare expression statement defines no variable whose static type could be read: only accepted/rejected
+        else:
+            ok1 = judge_stmt(c["s1"], c["t1"], r["r1"], problems)
         if c["t1"]["k"] == "err":
             rejected += 1
         if ok1 and c["s2"]:
